@@ -49,3 +49,26 @@ Theorem closure_examples :
                     {| rv_name := "b"; rv_symbol := "b"; rv_value := "1.0"; rv_kind := KDerived |} ]] [] = false.
 Proof. vm_compute. repeat split; reflexivity. Qed.
 Print Assumptions closure_examples.
+
+(** tie to the current /repo: the EvalRates units of the bundled fixture networks,
+    regenerated on every run (index macros in scope, the symbol registries of every
+    reaction and dust model, the rate assignments), decided by computation: each is
+    closed, except the two recorded findings - the UCLCHEM format without H2 in the
+    network (H2shielding uses IDX_H2I) *)
+From NaunetGen Require Import Units.
+
+Definition kind_of (s : string) : vkind :=
+  if String.eqb s "const" then KConst else if String.eqb s "param" then KParam else KDerived.
+Definition to_registry (r : list (string * string * string * string)) : registry :=
+  map (fun x => match x with (n, sy, v, k) => {| rv_name := n; rv_symbol := sy; rv_value := v; rv_kind := kind_of k |} end) r.
+Definition unit_verdict (u : string * (list string * list (list (string * string * string * string)) * list string)) : string * bool :=
+  match u with (label, (macros, regs, uses)) => (label, unit_closed macros (map to_registry regs) uses) end.
+
+Theorem live_units_closed :
+  map unit_verdict live_units =
+  [("minimal.kida", true); ("minimal.umist", true); ("minimal.krome", true);
+   ("minimal.leeds + hh93", true); ("minimal.leeds + hh93i", true);
+   ("minimal.ucl + rr07 + H2", true); ("minimal.ucl + rr07x + H2", true);
+   ("minimal.ucl + rr07 without H2", false)].
+Proof. vm_compute. reflexivity. Qed.
+Print Assumptions live_units_closed.
